@@ -1019,6 +1019,14 @@ func runC08(p *Prog, r *Report) {
 	ruleTrim(p, r)
 	r.Explain = append(r.Explain, "R-TRIM/fast: the line built by the single run shortcut of WrapParagraph (wrapBuffer.singleRunParagraph, the only line constructor outside WrapNextLine) is returned only after a call from which the trimming store is reachable, on every path that does not take the edge where WrapConfig.DisableTrailingWhitespaceTrim is set.")
 	ruleTrimFast(p, r)
+	r.Explain = append(r.Explain, "R-STATE (shared with C13) on shaping.LineWrapper: the paragraph direction and the trim flag that order and trim a line are fields of the reusable wrapper; every field an entry method may read before writing it is classified — a line ordered or trimmed with the configuration of the previous paragraph is a wrong visual order.")
+	fx := NewFX(p)
+	fx.Run()
+	for _, c := range stateConfigs() {
+		if c.name == "shaping.LineWrapper" {
+			ruleState(p, r, fx, c)
+		}
+	}
 	r.Assumptions = append(r.Assumptions, "Output carries only the parity of the embedding level (Direction); x/text's bidi.Run exposes no level")
 	r.NotDecided = append(r.NotDecided, "that the order equals rule L2 of UAX #9 for the embedding levels (levels above 1 are not represented; the level-2 mis-ordering mentioned by the property is invisible to these rules)", "that the trimmed glyph is the visually last one")
 }
